@@ -1,7 +1,7 @@
 (** * The checkers on every trace of the wrapper over an arbitrary iterator (ConIterOfIter). *)
 From Coq Require Import Lia ZArith Permutation.
 From OCI Require Import Machine Checkers.
-From OCI.proofs Require Import Base Trace ArithOk InvKnown ChkKnown IterBase IterProt InvIterA InvIterB InvIterH.
+From OCI.proofs Require Import Base Trace ArithOk InvKnown ChkKnown IterBase IterProt InvIterA InvIterB.
 Open Scope N_scope.
 
 (** a wrapped iterator of any length below 2^64, with any size hint, owning its elements or not *)
@@ -86,16 +86,6 @@ Qed.
 Theorem iter_mutex : forall t u,
   in_crit (t_pc (c_pool c t)) = true -> in_crit (t_pc (c_pool c u)) = true -> t = u.
 Proof. destruct iter_inv as [A _]. apply (mutex e L c A). Qed.
-
-(** C07 (b): every use of the wrapped iterator happens-after the previous one, for the orderings the
-    source declares *)
-Theorem iter_C07_hb : chk_C07_hb (c_labels c) = true.
-Proof.
-  destruct Hie as (He & Hk). unfold chk_C07_hb. apply (h_fine c).
-  apply (iH_exec e Hk L); try assumption.
-  - apply NoDup_nodup.
-  - apply Forall_forall. intros t Ht. apply nodup_In. exact Ht.
-Qed.
 
 Lemma iev_part (P : tid -> res -> list drops -> list event -> bool) :
   (forall t r d tl, ev6 e t r d tl = true -> P t r d tl = true) -> all_rets P (c_trace c) = true.
